@@ -69,6 +69,17 @@ def cases(rng, tier):
         out.append({"f": "where", "lens": lens, "mask": _rand_mask(rng, lens), "y": "ragged", "dtype": dt(), "ydtype": dt(), "vseed": vs})
         for f in ("subset", "mask_index"):
             out.append({"f": f, "lens": lens, "mask": _rand_mask(rng, lens), "dtype": dt(), "vseed": vs})
+        # the same functions on an operand that is a block of rows of a larger array
+        emb = [[rng.randint(0, 3) for _ in range(rng.randint(1, 2))], [rng.randint(0, 3) for _ in range(rng.randint(0, 2))]]
+        fe = rng.choice(["subset", "mask_index", "mask_index", "where", "padded", "ragged_slice", "like"])
+        q = {"f": fe, "lens": lens, "mask": _rand_mask(rng, lens), "y": "scalar", "dtype": dt(), "vseed": vs, "embed": emb}
+        if fe == "padded":
+            q.update(side=rng.choice(["left", "right"]), fill=0, dtype="int64")
+        elif fe == "ragged_slice":
+            ss, es = _windows(rng, lens); q.update(starts=ss, ends=es)
+        elif fe == "like":
+            q.update(which=rng.choice(["zeros", "ones"]))
+        out.append(q)
         for _ in range(2):
             ss, es = _windows(rng, lens)
             out.append({"f": "ragged_slice", "lens": lens, "starts": ss if rng.random() < 0.8 else None, "ends": es if rng.random() < 0.8 else None, "dtype": dt(), "vseed": vs})
@@ -180,6 +191,14 @@ def run_impl(p):
                 return ragged_slice(arg, np.array(p["starts"]), np.array(p["ends"]))
             n = sum(p["lens"])
             ra = RaggedArray(s[:n].copy(), list(p["lens"]))
+            emb = p.get("embed")
+            if emb:
+                # the operand is a block of rows cut out of a LARGER array (rows with cells before and after it), not yet
+                # looked at in any other way: a derived array must behave like a freshly built one
+                pre, post = emb
+                big = RaggedArray(np.concatenate([np.full(sum(pre), 77, dtype=s.dtype), s[:n], np.full(sum(post), 88, dtype=s.dtype)]),
+                                  list(pre) + list(p["lens"]) + list(post))
+                ra = big[len(pre):len(pre) + len(p["lens"])] if emb and (len(pre) + len(post)) % 2 == 0 else big[len(pre):len(big) - len(post)]
             if f == "like":
                 r = getattr(np, p["which"] + "_like")(ra)
                 if p["which"] == "empty":
@@ -190,7 +209,9 @@ def run_impl(p):
                 if f == "nonzero":
                     arr = RaggedArray(mflat.astype(p["dtype"]), list(p["lens"]))
                     r = np.nonzero(arr) if p["vseed"] % 2 else arr.nonzero()
-                    return [[int(x) for x in r[0]], [int(x) for x in r[1]]]
+                    # numpy's nonzero returns platform integers (int64) whatever the library's index width is
+                    return {"k": "obs", "idx": canon([[int(x) for x in r[0]], [int(x) for x in r[1]]]),
+                            "index_dtypes": canon([str(np.asarray(r[0]).dtype), str(np.asarray(r[1]).dtype)])}
                 m = RaggedArray(mflat, list(p["lens"]))
                 if f == "where":
                     y = RaggedArray(s[n:2 * n].copy(), list(p["lens"])) if p["y"] == "ragged" else s[2 * n].item()
@@ -252,7 +273,7 @@ def oracle(p):
         return _ra([np.full(len(r), c, dtype=dt) for r in rows], dt)
     if f == "nonzero":
         rc = [(i, j) for i, row in enumerate(p["mask"]) for j, b in enumerate(row) if b]
-        return canon([[i for i, _ in rc], [j for _, j in rc]])
+        return {"k": "obs", "idx": canon([[i for i, _ in rc], [j for _, j in rc]]), "index_dtypes": canon(["int64", "int64"])}
     if f == "where" and "ydtype" in p:
         yv = gens.cell_values(p["ydtype"], n, random.Random(p["vseed"] + 1))
         mflat = np.array([b for row in p["mask"] for b in row], dtype=bool)
@@ -336,7 +357,7 @@ def decode_lean(p, resp):
         if f == "like":
             return _ra([np.array(r, dtype=dt) for r in j], dt)
         if f == "nonzero":
-            return canon(j)
+            return {"k": "obs", "idx": canon(j), "index_dtypes": canon(["int64", "int64"])}
         if f == "mask_index":
             return canon(np.array([pool[i] for i in j], dtype=dt))
         if f == "padded":
